@@ -46,6 +46,15 @@ pub struct Failure {
 }
 
 impl Failure {
+    pub fn to_json(&self) -> Value {
+        json!({"message": self.message, "replay": self.replay, "signature": self.signature})
+    }
+    pub fn from_json(v: &Value) -> Option<Failure> {
+        if v.is_null() {
+            return None;
+        }
+        Some(Failure { message: v["message"].as_str().unwrap_or("").to_string(), replay: v["replay"].clone(), signature: v["signature"].as_str().map(|s| s.to_string()) })
+    }
     pub fn new(message: impl Into<String>, replay: Value) -> Self {
         Failure { message: message.into(), replay, signature: None }
     }
@@ -76,6 +85,31 @@ pub struct Stats {
 }
 
 impl Stats {
+    pub fn to_json(&self) -> Value {
+        json!({
+            "evaluations": self.evaluations,
+            "discards": self.discards,
+            "classes": self.classes,
+            "nontrivial": self.nontrivial.iter().map(|h| h.to_string()).collect::<Vec<_>>(),
+            "samples": self.samples,
+            "known_hits": self.known_hits,
+        })
+    }
+    pub fn from_json(v: &Value) -> Stats {
+        let map = |x: &Value| -> BTreeMap<String, u64> { x.as_object().map(|o| o.iter().map(|(k, v)| (k.clone(), v.as_u64().unwrap_or(0))).collect()).unwrap_or_default() };
+        Stats {
+            evaluations: v["evaluations"].as_u64().unwrap_or(0),
+            discards: map(&v["discards"]),
+            classes: map(&v["classes"]),
+            nontrivial: v["nontrivial"].as_array().map(|a| a.iter().filter_map(|x| x.as_str().and_then(|s| s.parse().ok())).collect()).unwrap_or_default(),
+            samples: v["samples"].as_array().cloned().unwrap_or_default(),
+            known_hits: map(&v["known_hits"]),
+        }
+    }
+    /// like merge, for the single shard of a child process
+    pub fn merge_full(&mut self, o: Stats) {
+        self.merge(o)
+    }
     pub fn class(&mut self, name: &str) {
         *self.classes.entry(name.to_string()).or_insert(0) += 1;
     }
@@ -141,6 +175,9 @@ pub struct RunCtx {
     pub failures: Mutex<Vec<Failure>>,
     pub notes: Mutex<Vec<String>>,
     pub exhaustive: AtomicBool,
+    /// Some((phase, shard)): this process is a child running exactly that shard
+    pub child: Option<(String, u64)>,
+    isolated: Mutex<Vec<String>>,
     watchdog: Arc<Watchdog>,
 }
 
@@ -202,8 +239,10 @@ impl RunCtx {
             start: Instant::now(),
             stats: Mutex::new(Stats::default()),
             failures: Mutex::new(Vec::new()),
-            notes: Mutex::new(Vec::new()),
+            notes: Mutex::new(std::env::var("VERIF_BUILD_NOTE").ok().into_iter().collect()),
             exhaustive: AtomicBool::new(false),
+            child: None,
+            isolated: Mutex::new(Vec::new()),
             watchdog: wd,
         }
     }
@@ -246,6 +285,10 @@ impl RunCtx {
     /// Random search: `cases` tapes (length < `max_len`) split over shards, each shard a proptest
     /// TestRunner with a fixed seed derived from (VERIF_SEED, property, phase, shard).  On a
     /// failure proptest shrinks the tape; the failure of the minimal tape is recorded.
+    ///
+    /// A phase listed in `isolated` runs each shard in a child process (`dlv shard ...`), so that
+    /// an abort (stack overflow, double panic) of the code under test is attributed to one input
+    /// instead of killing the check.
     pub fn search<F>(&self, phase: &str, cases: u64, max_len: usize, f: F)
     where
         F: Fn(&[u8], &mut Stats) -> CaseResult + Sync,
@@ -255,9 +298,19 @@ impl RunCtx {
         }
         let shards = self.threads.max(1) as u64;
         let per = cases.div_ceil(shards);
-        let phase_id = hash_str(phase);
-        let prop_id = hash_str(&self.prop);
         let stop = AtomicBool::new(false);
+        if let Some((child_phase, child_shard)) = &self.child {
+            if child_phase != phase {
+                return;
+            }
+            let (st, fail) = self.run_shard(phase, *child_shard, per, max_len, &f, &stop);
+            self.stats.lock().unwrap().merge_full(st);
+            if let Some(f) = fail {
+                self.failures.lock().unwrap().push(f);
+            }
+            return;
+        }
+        let isolated = self.isolated.lock().unwrap().iter().any(|p| p == phase);
         let results: Vec<(Stats, Option<Failure>)> = std::thread::scope(|sc| {
             let mut hs = Vec::new();
             for shard in 0..shards {
@@ -266,83 +319,11 @@ impl RunCtx {
                 let h = std::thread::Builder::new()
                     .stack_size(256 << 20)
                     .spawn_scoped(sc, move || {
-                        let slot = shard as usize % 64;
-                        let seed = mix(self.seed, prop_id ^ phase_id, shard);
-                        let mut seed_bytes = [0u8; 32];
-                        for i in 0..4 {
-                            seed_bytes[i * 8..i * 8 + 8].copy_from_slice(&mix(seed, i as u64, 77).to_le_bytes());
+                        if isolated {
+                            self.run_shard_in_child(phase, shard)
+                        } else {
+                            self.run_shard(phase, shard, per, max_len, f, stop)
                         }
-                        let cfg = PtConfig {
-                            cases: per as u32,
-                            failure_persistence: None,
-                            max_shrink_iters: 600,
-                            max_local_rejects: u32::MAX,
-                            max_global_rejects: u32::MAX,
-                            ..PtConfig::default()
-                        };
-                        let mut runner =
-                            TestRunner::new_with_rng(cfg, TestRng::from_seed(RngAlgorithm::ChaCha, &seed_bytes));
-                        let stats = RefCell::new(Stats::default());
-                        let last_fail: RefCell<Option<Failure>> = RefCell::new(None);
-                        let strat = tape_strategy(max_len);
-                        let res = runner.run(&strat, |tape| {
-                            let counting = last_fail.borrow().is_none();
-                            if counting && stop.load(Ordering::Relaxed) {
-                                // another shard already found a violation: do not start new work
-                                return Ok(());
-                            }
-                            let mut scratch = Stats::default();
-                            self.wd_enter(slot, || format!("phase={} tape={}", phase, hex(&tape)));
-                            let r = {
-                                let mut st = stats.borrow_mut();
-                                let target: &mut Stats = if counting { &mut st } else { &mut scratch };
-                                f(&tape, target)
-                            };
-                            self.wd_leave(slot);
-                            match r {
-                                CaseResult::Pass { nontrivial } => {
-                                    if counting {
-                                        let mut st = stats.borrow_mut();
-                                        st.evaluations += 1;
-                                        if let Some(h) = nontrivial {
-                                            st.nontrivial.insert(h);
-                                        }
-                                    }
-                                    Ok(())
-                                }
-                                CaseResult::Discard(why) => {
-                                    if counting {
-                                        *stats.borrow_mut().discards.entry(why.to_string()).or_insert(0) += 1;
-                                    }
-                                    Ok(())
-                                }
-                                CaseResult::Fail(fail) => {
-                                    if let Some(sig) = fail.signature.as_deref() {
-                                        if let Some(k) = self.known_signature(sig) {
-                                            if counting {
-                                                *stats.borrow_mut().known_hits.entry(k.id.clone()).or_insert(0) += 1;
-                                            }
-                                            return Ok(());
-                                        }
-                                    }
-                                    if counting {
-                                        stats.borrow_mut().evaluations += 1;
-                                    }
-                                    let msg = fail.message.clone();
-                                    stop.store(true, Ordering::Relaxed);
-                                    *last_fail.borrow_mut() = Some(fail);
-                                    Err(TestCaseError::fail(msg))
-                                }
-                            }
-                        });
-                        let fail = match res {
-                            Ok(()) => None,
-                            Err(TestError::Fail(_, _)) => last_fail.into_inner(),
-                            Err(TestError::Abort(r)) => {
-                                Some(Failure::new(format!("proptest aborted: {}", r), json!({"abort": r.to_string()})))
-                            }
-                        };
-                        (stats.into_inner(), fail)
                     })
                     .expect("spawn");
                 hs.push(h);
@@ -363,12 +344,152 @@ impl RunCtx {
         }
     }
 
+    /// mark a search phase as process-isolated (must be called before `search`)
+    pub fn isolate(&self, phase: &str) {
+        self.isolated.lock().unwrap().push(phase.to_string());
+    }
+
+    fn run_shard_in_child(&self, phase: &str, shard: u64) -> (Stats, Option<Failure>) {
+        let exe = std::env::current_exe().expect("current exe");
+        let run = |trace: Option<&Path>| -> (Option<i32>, String) {
+            let mut cmd = std::process::Command::new(&exe);
+            cmd.args(["shard", &self.prop, self.tier.name(), phase, &shard.to_string()])
+                .env("VERIF_SEED", (self.seed as i64).to_string())
+                .env("VERIF_DIR", &self.verif_dir)
+                .env("VERIF_THREADS", self.threads.to_string())
+                .stderr(std::process::Stdio::null());
+            if let Some(t) = trace {
+                cmd.env("VERIF_TRACE_FILE", t);
+            }
+            match cmd.output() {
+                Ok(o) => (o.status.code(), String::from_utf8_lossy(&o.stdout).to_string()),
+                Err(e) => (Some(-1), format!("spawn failed: {}", e)),
+            }
+        };
+        let (code, out) = run(None);
+        if let Some(line) = out.lines().find(|l| l.starts_with("SHARD-RESULT ")) {
+            if let Ok(v) = serde_json::from_str::<Value>(&line["SHARD-RESULT ".len()..]) {
+                return (Stats::from_json(&v["stats"]), Failure::from_json(&v["failure"]));
+            }
+        }
+        // the child died without a result: find the input it was working on
+        let dir = self.verif_dir.join(".work/trace");
+        let _ = std::fs::create_dir_all(&dir);
+        let trace = dir.join(format!("{}-{}-{}.trace", self.prop, hash_str(phase) % 100000, shard));
+        let _ = std::fs::remove_file(&trace);
+        let (code2, _) = run(Some(&trace));
+        let last = std::fs::read_to_string(&trace).ok().and_then(|t| t.lines().last().map(|l| l.to_string())).unwrap_or_default();
+        let _ = std::fs::remove_file(&trace);
+        let mut st = Stats::default();
+        st.evaluations = 1;
+        (
+            st,
+            Some(Failure::new(
+                format!(
+                    "the process running phase `{}` shard {} died (exit code {:?}, then {:?} when re-run with tracing): an abort such as a stack overflow or a double panic; last input (tape, hex): {}",
+                    phase, shard, code, code2, last
+                ),
+                json!({"kind": "abort", "phase": phase, "tape": last}),
+            )),
+        )
+    }
+
+    fn run_shard<F>(&self, phase: &str, shard: u64, per: u64, max_len: usize, f: &F, stop: &AtomicBool) -> (Stats, Option<Failure>)
+    where
+        F: Fn(&[u8], &mut Stats) -> CaseResult + Sync,
+    {
+        let phase_id = hash_str(phase);
+        let prop_id = hash_str(&self.prop);
+        let trace_file = std::env::var("VERIF_TRACE_FILE").ok();
+        let slot = shard as usize % 64;
+        let seed = mix(self.seed, prop_id ^ phase_id, shard);
+        let mut seed_bytes = [0u8; 32];
+        for i in 0..4 {
+            seed_bytes[i * 8..i * 8 + 8].copy_from_slice(&mix(seed, i as u64, 77).to_le_bytes());
+        }
+        let cfg = PtConfig {
+            cases: per as u32,
+            failure_persistence: None,
+            max_shrink_iters: 600,
+            max_local_rejects: u32::MAX,
+            max_global_rejects: u32::MAX,
+            ..PtConfig::default()
+        };
+        let mut runner = TestRunner::new_with_rng(cfg, TestRng::from_seed(RngAlgorithm::ChaCha, &seed_bytes));
+        let stats = RefCell::new(Stats::default());
+        let last_fail: RefCell<Option<Failure>> = RefCell::new(None);
+        let strat = tape_strategy(max_len);
+        let res = runner.run(&strat, |tape| {
+            let counting = last_fail.borrow().is_none();
+            if counting && stop.load(Ordering::Relaxed) {
+                // another shard already found a violation: do not start new work
+                return Ok(());
+            }
+            if let Some(tf) = &trace_file {
+                use std::io::Write;
+                if let Ok(mut fh) = std::fs::OpenOptions::new().create(true).append(true).open(tf) {
+                    let _ = writeln!(fh, "{}", hex_full(&tape));
+                    let _ = fh.sync_all();
+                }
+            }
+            let mut scratch = Stats::default();
+            self.wd_enter(slot, || format!("phase={} tape={}", phase, hex(&tape)));
+            let r = {
+                let mut st = stats.borrow_mut();
+                let target: &mut Stats = if counting { &mut st } else { &mut scratch };
+                f(&tape, target)
+            };
+            self.wd_leave(slot);
+            match r {
+                CaseResult::Pass { nontrivial } => {
+                    if counting {
+                        let mut st = stats.borrow_mut();
+                        st.evaluations += 1;
+                        if let Some(h) = nontrivial {
+                            st.nontrivial.insert(h);
+                        }
+                    }
+                    Ok(())
+                }
+                CaseResult::Discard(why) => {
+                    if counting {
+                        *stats.borrow_mut().discards.entry(why.to_string()).or_insert(0) += 1;
+                    }
+                    Ok(())
+                }
+                CaseResult::Fail(fail) => {
+                    if let Some(sig) = fail.signature.as_deref() {
+                        if let Some(k) = self.known_signature(sig) {
+                            if counting {
+                                *stats.borrow_mut().known_hits.entry(k.id.clone()).or_insert(0) += 1;
+                            }
+                            return Ok(());
+                        }
+                    }
+                    if counting {
+                        stats.borrow_mut().evaluations += 1;
+                    }
+                    let msg = fail.message.clone();
+                    stop.store(true, Ordering::Relaxed);
+                    *last_fail.borrow_mut() = Some(fail);
+                    Err(TestCaseError::fail(msg))
+                }
+            }
+        });
+        let fail = match res {
+            Ok(()) => None,
+            Err(TestError::Fail(_, _)) => last_fail.into_inner(),
+            Err(TestError::Abort(r)) => Some(Failure::new(format!("proptest aborted: {}", r), json!({"abort": r.to_string()}))),
+        };
+        (stats.into_inner(), fail)
+    }
+
     /// Deterministic enumeration of `n` indexed cases in parallel; the first failing index wins.
     pub fn enumerate<F>(&self, phase: &str, n: u64, f: F)
     where
         F: Fn(u64, &mut Stats) -> CaseResult + Sync,
     {
-        if self.failed() || n == 0 {
+        if self.failed() || n == 0 || self.child.is_some() {
             return;
         }
         let shards = (self.threads.max(1) as u64).min(n);
@@ -466,6 +587,14 @@ pub fn hex(b: &[u8]) -> String {
     s
 }
 
+pub fn hex_full(b: &[u8]) -> String {
+    let mut s = String::with_capacity(b.len() * 2);
+    for x in b {
+        s.push_str(&format!("{:02x}", x));
+    }
+    s
+}
+
 pub fn unhex(s: &str) -> Vec<u8> {
     (0..s.len() / 2).filter_map(|i| u8::from_str_radix(&s[2 * i..2 * i + 2], 16).ok()).collect()
 }
@@ -538,13 +667,24 @@ pub fn install_panic_hook() {
         } else {
             "<non-string panic>".to_string()
         };
-        let loc = info.location().map(|l| format!("{}:{}", l.file(), l.line())).unwrap_or_default();
+        let loc = info.location().map(|l| format!("{}:{}", short_path(l.file()), l.line())).unwrap_or_default();
         let quiet = QUIET_PANIC.with(|q| *q.borrow());
         LAST_PANIC.with(|p| *p.borrow_mut() = Some(format!("{}: {}", loc, msg)));
         if !quiet {
             default(info);
         }
     }));
+}
+
+/// a cargo-registry path without its host-specific prefix (`full_moon-2.2.0/src/...`)
+fn short_path(p: &str) -> &str {
+    match p.find("/registry/src/") {
+        Some(i) => {
+            let rest = &p[i + "/registry/src/".len()..];
+            rest.find('/').map(|j| &rest[j + 1..]).unwrap_or(rest)
+        }
+        None => p,
+    }
 }
 
 /// run `f`, turning a panic into Err("location: message")
@@ -725,6 +865,18 @@ pub fn run_property(def: &PropDef, tier: Tier, seed: u64, verif_dir: PathBuf) ->
     } else {
         0
     }
+}
+
+/// entry point of a child process running one shard of one isolated phase
+pub fn run_shard_process(def: &PropDef, tier: Tier, seed: u64, verif_dir: PathBuf, phase: &str, shard: u64) -> i32 {
+    install_panic_hook();
+    let mut ctx = RunCtx::new(def.id, tier, seed, verif_dir);
+    ctx.child = Some((phase.to_string(), shard));
+    (def.run)(&ctx);
+    let st = ctx.stats.lock().unwrap().clone();
+    let fail = ctx.failures.lock().unwrap().first().cloned();
+    println!("SHARD-RESULT {}", json!({"stats": st.to_json(), "failure": fail.map(|f| f.to_json())}));
+    0
 }
 
 pub fn first_line(s: &str) -> &str {
